@@ -338,6 +338,50 @@ def _identities(cfg, cx, gs):
             px, ci, cj = idx[:D], idx[D:D + ka], idx[D + ka:]
             ref[idx] = X.a[px + ci] * Y.a[px + cj]
         cx.equal(f"a*b definition [{(ka, pa)}x{(kb, pb)}]", l, ref, key=f"mul-def:D={D}:{ka},{pa}:{kb},{pb}")
+    # value-level definitions of sum, difference, scalar multiple, transposition, pixel norm, Levi-Civita contraction
+    for (k, par) in [(0, 1), (1, 0), (2, 1)]:
+        X = S.var_array("P", (N,) * D + (D,) * k)
+        Y = S.var_array("Q", (N,) * D + (D,) * k)
+        sc = S.var_array("s", (1,))
+        for nm, f, ref in [("a+b", lambda x, y, s_: (gi(x, par) + gi(y, par)).data, X.a + Y.a),
+                           ("a-b", lambda x, y, s_: (gi(x, par) - gi(y, par)).data, X.a - Y.a),
+                           ("a*s", lambda x, y, s_: (gi(x, par) * s_[0]).data, X.a * sc.a[0]),
+                           ("s*a", lambda x, y, s_: (s_[0] * gi(x, par)).data, X.a * sc.a[0]),
+                           ("times_scalar", lambda x, y, s_: gi(x, par).times_scalar(s_[0]).data, X.a * sc.a[0])]:
+            got = I.sym_call(f, X, Y, sc)
+            cx.equal(f"{nm} definition [{(k, par)}]", got, ref, key=f"def:{nm}:D={D}:{k},{par}",
+                     replay=lambda vals, bvals, f=f, ref=ref, X=X, Y=Y, sc=sc: cx.deviates(
+                         np.asarray(f(jnp.asarray(cx.conc(X, vals)), jnp.asarray(cx.conc(Y, vals)), jnp.asarray(cx.conc(sc, vals)))),
+                         cx.expected(ref, vals)))
+        if k == 2:
+            got = I.sym_call(lambda x: gi(x, par).transpose((1, 0)).data, X)
+            cx.equal("transpose definition", got, np.swapaxes(X.a, D, D + 1), key=f"def:transpose:D={D}")
+        nrm = I.sym_call(lambda x: gi(x, par).norm().data, X)
+        sq = np.empty((N,) * D, dtype=object)
+        for px in itertools.product(range(N), repeat=D):
+            acc = S.ZERO
+            for q in np.asarray(X.a[px], dtype=object).reshape(-1):
+                acc = acc + q * q
+            sq[px] = acc
+        cx.equal(f"norm^2 = sum of squared components [{(k, par)}]", nrm.a * nrm.a, sq, key=f"def:norm:D={D}:{k},{par}")
+    epsf = np.asarray(geom.LeviCivitaSymbol.get(D))
+    kk = D  # one free index left after the D-1 contractions plus one from epsilon: k' = k - D + 2 = 2
+    Z = S.var_array("Z", (N,) * D + (D,) * kk)
+    idxs = tuple(range(D - 1))
+    got = I.sym_call(lambda x: gi(x, 0).levi_civita_contract(idxs if D > 2 else idxs[0]).data, Z)
+    ref = np.empty((N,) * D + (D,) * 2, dtype=object)
+    for px in itertools.product(range(N), repeat=D):
+        for r in range(D):          # the remaining image index (position D-1 of the input)
+            for e in range(D):      # the free index of epsilon (its last)
+                acc = S.ZERO
+                for js in itertools.product(range(D), repeat=D - 1):
+                    c = int(epsf[js + (e,)])
+                    if c:
+                        acc = acc + Z.a[px + js + (r,)] * c
+                ref[px + (r, e)] = acc
+    cx.equal("levi_civita_contract definition", got, ref, key=f"def:levi-civita:D={D}",
+             replay=lambda vals, bvals: cx.deviates(np.asarray(gi(jnp.asarray(cx.conc(Z, vals)), 0).levi_civita_contract(idxs if D > 2 else idxs[0]).data),
+                                                    cx.expected(ref, vals)))
     # Levi-Civita symbol is the alternating tensor
     eps = np.asarray(geom.LeviCivitaSymbol.get(D))
     ok = eps.shape == (D,) * D
